@@ -194,6 +194,127 @@ fn random_prop(model: &Model, ix: &Index, tape: &[u32], st: &mut Stats) -> Resul
 }
 
 // -------------------------------------------------------------------------------------------------
+// return values of every response type into buffers of every size
+// -------------------------------------------------------------------------------------------------
+
+type TyI = fixture::ty::I<4>;
+
+fn run_cap_ty<const CAP: usize>(env: Option<&Env>, pauses: &[u8], input: &[u8]) -> RunOut {
+    vrun::run_heapless::<TyI, CAP>(env, pauses, input)
+}
+
+const TY_CAPS: &[usize] = &[0, 1, 2, 7, 8, 16, 24, 31, 32, 33, 40, 64, 128, 400, 4096];
+
+fn run_ty(cap: usize, env: &Env, input: &[u8]) -> RunOut {
+    match cap {
+        0 => run_cap_ty::<0>(Some(env), &[], input),
+        1 => run_cap_ty::<1>(Some(env), &[], input),
+        2 => run_cap_ty::<2>(Some(env), &[], input),
+        7 => run_cap_ty::<7>(Some(env), &[], input),
+        8 => run_cap_ty::<8>(Some(env), &[], input),
+        16 => run_cap_ty::<16>(Some(env), &[], input),
+        24 => run_cap_ty::<24>(Some(env), &[], input),
+        31 => run_cap_ty::<31>(Some(env), &[], input),
+        32 => run_cap_ty::<32>(Some(env), &[], input),
+        33 => run_cap_ty::<33>(Some(env), &[], input),
+        40 => run_cap_ty::<40>(Some(env), &[], input),
+        64 => run_cap_ty::<64>(Some(env), &[], input),
+        128 => run_cap_ty::<128>(Some(env), &[], input),
+        400 => run_cap_ty::<400>(Some(env), &[], input),
+        _ => run_cap_ty::<4096>(Some(env), &[], input),
+    }
+}
+
+fn proc_ty(n: usize, env: &Env, stream: &[u8], reads: &[usize]) -> ProcOut {
+    match n {
+        24 => vrun::process::<TyI, 24>(Some(env), &[], stream, reads, None),
+        64 => vrun::process::<TyI, 64>(Some(env), &[], stream, reads, None),
+        400 => vrun::process::<TyI, 400>(Some(env), &[], stream, reads, None),
+        _ => vrun::process::<TyI, 4096>(Some(env), &[], stream, reads, None),
+    }
+}
+
+/// One or two queries of the `ty` fixture (every response type) whose handlers return generated
+/// values - every float bit pattern class, extreme integers, long strings and blocks, composites -
+/// into response buffers from 0 to 4096 bytes: never a panic; and whenever no error is reported,
+/// the output is exactly the responses of the executed queries.
+fn values_prop(model: &Model, queries: &[usize], tape: &[u32], st: &mut Stats) -> Result<(), String> {
+    let mut t = Tape::new(tape);
+    let mut env = Env::new(model, 4);
+    let k = if t.chance(1, 4) { 2 } else { 1 };
+    let mut msg = Vec::new();
+    let mut ids = Vec::new();
+    for i in 0..k {
+        let id = queries[t.below(queries.len())];
+        let d = &model.spec.decls[id];
+        // (the same query twice shares one return value: the later one)
+        env.rets[id] = vcore::vals::gen_value(&mut t, &d.ret);
+        let (nodes, _) = vcore::spec::parse_cmd(&d.cmd);
+        if i > 0 {
+            msg.extend_from_slice(b";:");
+        }
+        msg.extend_from_slice(nodes.iter().map(|n| n.long()).collect::<Vec<_>>().join(":").as_bytes());
+        msg.push(b'?');
+        ids.push(id);
+    }
+    let typed: Vec<(RetTy, RVal)> = ids.iter().map(|&id| (model.spec.decls[id].ret.clone(), env.rets[id].clone())).collect();
+    msg.push(b'\n');
+    let cap = TY_CAPS[t.below(TY_CAPS.len())];
+    let out = run_ty(cap, &env, &msg);
+    check_run(&out).map_err(|e| format!("{} [run cap={} input='{}']", e, cap, esc(&msg)))?;
+    let errors = out.log.iter().filter(|e| matches!(e, Ev::Error { .. })).count();
+    let show = |v: &[(RetTy, RVal)]| v.iter().map(|(_, x)| format!("{:?}", x)).collect::<Vec<_>>().join(" ; ");
+    if errors == 0 {
+        if vcore::decode::match_response_sequence(&typed, &out.out) != Ok(k) {
+            return Err(format!(
+                "no error reported but the output '{}' (capacity {}) is not the {} response(s) to '{}' returning {}",
+                esc(&out.out),
+                cap,
+                k,
+                esc(&msg),
+                show(&typed)
+            ));
+        }
+        st.class("run: answered");
+    }
+    else {
+        st.class("run: error reported");
+        st.nontrivial(&(&msg, cap, 0u8));
+    }
+    let n = [24usize, 64, 400, 4096][t.below(4)];
+    if n >= msg.len() {
+        let reads: Vec<usize> = if t.chance(1, 2) { vec![] } else { vec![t.range(1, 9); msg.len() + 1] };
+        let po = proc_ty(n, &env, &msg, &reads);
+        check_proc(&po, msg.len()).map_err(|e| format!("{} [process N={} stream='{}']", e, n, esc(&msg)))?;
+        let errors = po.log.iter().filter(|e| matches!(e, Ev::Error { .. })).count();
+        let (_, written) = vrun::observation(&po.log, &[]);
+        if errors == 0 {
+            if vcore::decode::match_response_sequence(&typed, &written) != Ok(k) {
+                return Err(format!(
+                    "process::<{}>: no error reported but '{}' was written for '{}' returning {}",
+                    n,
+                    esc(&written),
+                    esc(&msg),
+                    show(&typed)
+                ));
+            }
+            st.class("process: answered");
+        }
+        else {
+            st.class("process: error reported");
+            st.nontrivial(&(&msg, n, 1u8));
+        }
+    }
+    for (r, v) in &typed {
+        if vcore::vals::is_nontrivial(r, v) {
+            st.nontrivial(&(&msg, format!("{:?}", v)));
+        }
+    }
+    st.sample(|| json!({ "message": esc(&msg), "cap": cap, "N": n, "returns": show(&typed) }));
+    Ok(())
+}
+
+// -------------------------------------------------------------------------------------------------
 // responses that do not fit
 // -------------------------------------------------------------------------------------------------
 
@@ -440,6 +561,17 @@ fn main() {
         false,
         |h, st| h.tape_search("c05.smallbuf", cases, 64, st, |tape, st| smallbuf_prop(&model, tape, st)),
         |case| replay_tape(case, |tape, st| smallbuf_prop(&model, tape, st)),
+    );
+    let ty_spec = vrun::spec_of(fixture::ty::SPEC_JSON);
+    let ty_model = Model::build(&ty_spec).expect("ty fixture is collision-free");
+    let ty_queries: Vec<usize> = (0..ty_model.spec.decls.len()).filter(|&i| ty_model.spec.decls[i].cmd.starts_with("RET:") && ty_model.spec.decls[i].is_query()).collect();
+    let cases = h.tier.pick(200_000, 3_000_000);
+    h.check(
+        "c05.values",
+        "proptest tapes -> one or two queries of the ty fixture (one query per response type: all integer widths, f32/f64, bool, &str, heapless::String, String, blocks, character data, Error, tuples incl. nested, heapless vectors, slices) whose handlers return generated values (integer extremes, every class of float bit pattern incl. the largest/smallest magnitudes whose decimal text has hundreds of characters, NaN/inf, long UTF-8 strings, blocks up to 3000 bytes, composites) into heapless response buffers of 0..4096 bytes through run and through process::<24|64|400|4096>: never a panic, run returns a suffix, process ends only with the transport's error; whenever no error is reported the output is exactly the expected responses (decoded); non-trivial = a response that did not fit (error reported) or a value non-trivial by C04's rule",
+        false,
+        |h, st| h.tape_search("c05.values", cases, 120, st, |tape, st| values_prop(&ty_model, &ty_queries, tape, st)),
+        |case| replay_tape(case, |tape, st| values_prop(&ty_model, &ty_queries, tape, st)),
     );
     let cases = h.tier.pick(60_000, 1_500_000);
     h.check(
